@@ -57,19 +57,19 @@ LEAN_MODULES = ['Mistral.Props.C02', 'Mistral.Props.C02Sem', 'Mistral.Props.C01X
 def correspond(ctx):
     from vlib import par
     par.run_parallel(ctx, 'harness.engine_stream', 'run_chunk',
-                     [{'n_programs': ctx.n(12, 400), 'props': ['C02'], 'mode': 'paired'}] * 14)
-    par.run_parallel(ctx, 'harness.core_stream', 'run_chunk', [{'n_programs': ctx.n(8, 200), 'mode': 'plain'}] * 14)
+                     [{'n_programs': ctx.n(12, 130), 'props': ['C02'], 'mode': 'paired'}] * 14)
+    par.run_parallel(ctx, 'harness.core_stream', 'run_chunk', [{'n_programs': ctx.n(8, 70), 'mode': 'plain'}] * 14)
     # the declarative semantics itself against the real engine (not run against run): real runs to quiescence
     # under random schedules (+pause/resume, +cache eviction) vs `sem.rows` of the Lean driver
-    par.run_parallel(ctx, 'harness.sem_stream', 'run_chunk', [{'n_programs': ctx.n(10, 300)}] * 14)
+    par.run_parallel(ctx, 'harness.sem_stream', 'run_chunk', [{'n_programs': ctx.n(10, 100)}] * 14)
     # the tie of merge_order_independent: the REAL data-flow functions on generated publish histories with every
     # inbound context evaluated in ALL row orders (joins <= 4 parents) against Mistral.Ctx, and the monitor
     # "the upstream context does not depend on the order the rows are listed when no publishers are concurrent"
-    par.run_parallel(ctx, 'harness.ctx_stream', 'run_chunk', [{'n_histories': ctx.n(100, 3000)}] * 14)
+    par.run_parallel(ctx, 'harness.ctx_stream', 'run_chunk', [{'n_histories': ctx.n(100, 1000)}] * 14)
     # the tie of join_verdict_order_independent / possibleRoute_congr: the REAL _get_join_logical_state on generated
     # graphs with synthetic task rows against Mistral.Join
     par.run_parallel(ctx, 'harness.join_stream', 'run_chunk',
-                     [{'n_programs': ctx.n(8, 200), 'rows_per_program': ctx.n(8, 20)}] * 14)
+                     [{'n_programs': ctx.n(8, 70), 'rows_per_program': ctx.n(8, 20)}] * 14)
 
 
 def search(ctx):
